@@ -51,6 +51,7 @@ def absVal : Val → AVal
   | .hash h => .hash (sortK (h.map fun (f, v) => (f, scalarText v)))
   | .set _ ms => .set (ms.mergeSort bytesLe)
   | .zset _ ms => .zset (sortK ms)
+  | .ilist xs => .list xs
 
 def liveAt (now : Int) (exp : Option Int) : Bool :=
   match exp with
